@@ -13,6 +13,8 @@ import (
 	"sync"
 	"time"
 
+	"go/types"
+
 	"golang.org/x/tools/go/ssa"
 )
 
@@ -181,7 +183,7 @@ func cmdCheck(args []string) int {
 	var keys []string
 	for _, k := range prog.cs.Order {
 		ct := prog.cs.Funcs[k]
-		if ct.Assumed {
+		if ct.Assumed || ct.Uncalled {
 			continue
 		}
 		for _, p := range ct.Props {
@@ -191,6 +193,7 @@ func cmdCheck(args []string) int {
 		}
 	}
 	toolErr := false
+	var structural []*oblResult
 	var results []*oblResult
 	var gens []*Gen
 	var funcsUnder []string
@@ -216,6 +219,35 @@ func cmdCheck(args []string) int {
 			results = append(results, &oblResult{O: o, G: g})
 		}
 	}
+	// structural obligations (decided on the SSA call graph, not by a solver)
+	for _, k := range prog.cs.Order {
+		ct := prog.cs.Funcs[k]
+		inProp := false
+		for _, p := range ct.Props {
+			if p == *prop {
+				inProp = true
+			}
+		}
+		if !inProp || !ct.Uncalled {
+			continue
+		}
+		f := prog.funcs[k]
+		if f == nil {
+			fmt.Printf("TOOL-ERROR: contract target %s not found\n", k)
+			toolErr = true
+			continue
+		}
+		callers := findCallers(prog, f)
+		o := &Obligation{Name: funcDisplayName(f) + ":structural.uncalled", Kind: "structural", Func: funcDisplayName(f), Where: ct.Where, Expect: "unsat",
+			Text: "no function of the loaded program calls " + trimName(k) + " (directly or through an interface)"}
+		r := &oblResult{O: o, Q: "; decided by scanning the SSA of all loaded packages\n"}
+		if len(callers) == 0 {
+			r.Res = SolverResult{Status: "unsat", Solver: "kbv-callgraph-scan"}
+		} else {
+			r.Res = SolverResult{Status: "unknown", Solver: "kbv-callgraph-scan", Output: "callers: " + strings.Join(callers, ", ")}
+		}
+		structural = append(structural, r)
+	}
 	// global invariants: proved from the package initialisers
 	for _, pk := range prog.pkgs {
 		has := false
@@ -224,7 +256,13 @@ func cmdCheck(args []string) int {
 				has = true
 			}
 		}
-		if !has {
+		used := false
+		for _, k := range keys {
+			if prog.cs.Funcs[k].Pkg == pk.PkgPath {
+				used = true
+			}
+		}
+		if !has || !used {
 			continue
 		}
 		g := genInit(prog, pk.PkgPath)
@@ -290,7 +328,11 @@ func cmdCheck(args []string) int {
 					mt = append(mt, mv.Term)
 				}
 			}
-			r.Res = runSolvers(r.Q, file, timeout, r.O.Expect == "unsat", mt, *tier == "thorough", seed)
+			to := timeout
+			if r.O.Expect == "sat" {
+				to = 6 * time.Second
+			}
+			r.Res = runSolvers(r.Q, file, to, r.O.Expect == "unsat", mt, *tier == "thorough" && r.O.Expect == "unsat", seed)
 			if r.O.Expect == "unsat" && r.Res.Status != "unsat" && r.Res.Status != "sat" {
 				// retry once with a longer limit before calling it undischarged
 				r.Res = runSolvers(r.Q, file, 3*timeout, true, mt, false, seed+1)
@@ -298,6 +340,7 @@ func cmdCheck(args []string) int {
 		}(i, r)
 	}
 	wg.Wait()
+	results = append(results, structural...)
 
 	// fold
 	known := loadKnownFindings()
@@ -415,19 +458,19 @@ func cmdCheck(args []string) int {
 		expl += fmt.Sprintf(" %d obligation(s) fail and are recorded as known findings; they are not counted as discharged.", knownHit)
 	}
 	cov := map[string]interface{}{
-		"obligations":          nObl,
-		"discharged":           nDis,
-		"checker_cmd":          fmt.Sprintf("kbv check -prop %s -tier %s (z3 4.8.12, z3-new 5.1.0, cvc5 1.0.3 raced per obligation)", *prop, *tier),
-		"trusted_base":         trusted,
-		"explanation":          expl,
+		"obligations":              nObl,
+		"discharged":               nDis,
+		"checker_cmd":              fmt.Sprintf("kbv check -prop %s -tier %s (z3 4.8.12, z3-new 5.1.0, cvc5 1.0.3 raced per obligation)", *prop, *tier),
+		"trusted_base":             trusted,
+		"explanation":              expl,
 		"functions_under_contract": funcsUnder,
-		"discharged_by_solver": bySolver,
-		"solver_time_s":        round3(solverTime),
+		"discharged_by_solver":     bySolver,
+		"solver_time_s":            round3(solverTime),
 		"vacuity_and_cover_checks": map[string]int{"generated": nCover, "sat_as_expected": nCoverOK},
-		"known_findings_hit":   knownHit,
-		"bounded_stand_ins":    pc.Bounded,
-		"samples":              samples,
-		"integer_model":        "signed Go integers: SMT Int with exact two's-complement wrap (wrap64/wrap32); unsigned: bit-vectors of their width",
+		"known_findings_hit":       knownHit,
+		"bounded_stand_ins":        pc.Bounded,
+		"samples":                  samples,
+		"integer_model":            "signed Go integers: SMT Int with exact two's-complement wrap (wrap64/wrap32); unsigned: bit-vectors of their width",
 	}
 	if *tier == "thorough" {
 		cov["single_solver_only"] = single
@@ -464,6 +507,63 @@ func cmdCheck(args []string) int {
 
 func round3(f float64) float64 {
 	return float64(int(f*1000+0.5)) / 1000
+}
+
+// findCallers lists functions that may call f: static calls, closures, and interface
+// invocations of a method with f's name on an interface f's receiver implements.
+func findCallers(prog *Program, f *ssa.Function) []string {
+	var out []string
+	var recv types.Type
+	if f.Signature.Recv() != nil {
+		recv = f.Signature.Recv().Type()
+	}
+	for key, fn := range prog.funcs {
+		if fn.Blocks == nil || fn == f {
+			continue
+		}
+		hit := false
+		for _, b := range fn.Blocks {
+			for _, in := range b.Instrs {
+				var cc *ssa.CallCommon
+				switch v := in.(type) {
+				case *ssa.Call:
+					cc = &v.Call
+				case *ssa.Go:
+					cc = &v.Call
+				case *ssa.Defer:
+					cc = &v.Call
+				}
+				if cc == nil {
+					// function value taken
+					for _, op := range in.Operands(nil) {
+						if *op == ssa.Value(f) {
+							hit = true
+						}
+					}
+					continue
+				}
+				if cc.IsInvoke() {
+					if recv != nil && cc.Method.Name() == f.Name() {
+						if it, ok := cc.Value.Type().Underlying().(*types.Interface); ok && types.Implements(recv, it) {
+							hit = true
+						}
+					}
+				} else if cc.StaticCallee() == f {
+					hit = true
+				}
+				for _, a := range cc.Args {
+					if a == ssa.Value(f) {
+						hit = true
+					}
+				}
+			}
+		}
+		if hit {
+			out = append(out, trimName(key))
+		}
+	}
+	sort.Strings(out)
+	return out
 }
 
 // genInit verifies the package's global invariants from its initialiser.
